@@ -15,6 +15,7 @@ import (
 	"fmt"
 	"os"
 	"path/filepath"
+	"regexp"
 	"strings"
 	"sync"
 
@@ -193,7 +194,81 @@ func runC01(e *Env) error {
 			viol(v[0], v[1], v[2], v[3], c)
 		}
 	})
+	// the deterministic single-edit catalogue (does not depend on the seed): one edit per case, on a table that
+	// nothing else touches, so that no other change hides it behind a rebuild
+	for hi, c := range c01SingleEdits() {
+		c := c
+		dir := filepath.Join(e.Work, fmt.Sprintf("c01-single-%d", hi))
+		os.MkdirAll(dir, 0o755)
+		res := c01Run(ctx, e, pool, &c, dir, false)
+		os.RemoveAll(dir)
+		e.Res.Count(fmt.Sprintf("c01-single-%d", hi), res.planned > 0, editKinds(c.Edits)...)
+		for _, v := range res.viols {
+			viol(v[0], v[1], v[2], v[3], c)
+		}
+	}
 	return nil
+}
+
+// c01SingleEdits: every ordered pair of referential actions (none, NO ACTION, RESTRICT, CASCADE, SET NULL,
+// SET DEFAULT) for ON DELETE and for ON UPDATE of a named and of an unnamed foreign key, plus a few other
+// edits that only change one attribute of one object.
+func c01SingleEdits() []c01Case {
+	const parent = "CREATE TABLE `parent` (`id` integer NOT NULL, PRIMARY KEY (`id`))"
+	child := func(named bool, clause string) string {
+		cn := ""
+		if named {
+			cn = "CONSTRAINT `fk_p` "
+		}
+		return "CREATE TABLE `child` (`id` integer NOT NULL, `pid` integer NULL DEFAULT 1, PRIMARY KEY (`id`), " + cn + "FOREIGN KEY (`pid`) REFERENCES `parent` (`id`)" + clause + ")"
+	}
+	actions := []string{"", "NO ACTION", "RESTRICT", "CASCADE", "SET NULL", "SET DEFAULT"}
+	rows := []string{"INSERT INTO `parent` VALUES (1), (2)", "INSERT INTO `child` VALUES (1, 1), (2, 2), (3, NULL)"}
+	var out []c01Case
+	for _, ev := range []string{"DELETE", "UPDATE"} {
+		for _, named := range []bool{true, false} {
+			for _, a := range actions {
+				for _, b := range actions {
+					if a == b {
+						continue
+					}
+					cl := func(x string) string {
+						if x == "" {
+							return ""
+						}
+						return " ON " + ev + " " + x
+					}
+					c := c01Case{
+						Current: []string{parent, child(named, cl(a))},
+						Desired: []string{parent, child(named, cl(b))},
+						Edits:   []*sqEdit{{Kind: "single:fk-action", Table: "child", What: fmt.Sprintf("ON %s %q -> %q (named=%v)", ev, a, b, named)}},
+						FK:      len(out)%2 == 0,
+					}
+					if len(out)%3 == 0 {
+						c.Rows = rows
+					}
+					out = append(out, c)
+				}
+			}
+		}
+	}
+	t := func(body string) []string { return []string{parent, "CREATE TABLE `t` (" + body + ")"} }
+	single := func(kind, from, to string) {
+		out = append(out, c01Case{Current: t(from), Desired: t(to), Edits: []*sqEdit{{Kind: "single:" + kind, Table: "t"}}, FK: true})
+	}
+	single("default", "`id` integer NOT NULL, `a` text NULL DEFAULT 'x', PRIMARY KEY (`id`)", "`id` integer NOT NULL, `a` text NULL DEFAULT 'y', PRIMARY KEY (`id`)")
+	single("default-dropped", "`id` integer NOT NULL, `a` text NULL DEFAULT 'x', PRIMARY KEY (`id`)", "`id` integer NOT NULL, `a` text NULL, PRIMARY KEY (`id`)")
+	single("nullability", "`id` integer NOT NULL, `a` text NULL DEFAULT 'x', PRIMARY KEY (`id`)", "`id` integer NOT NULL, `a` text NOT NULL DEFAULT 'x', PRIMARY KEY (`id`)")
+	single("type", "`id` integer NOT NULL, `a` text NULL, PRIMARY KEY (`id`)", "`id` integer NOT NULL, `a` integer NULL, PRIMARY KEY (`id`)")
+	single("pk-columns", "`id` integer NOT NULL, `a` integer NOT NULL, PRIMARY KEY (`id`)", "`id` integer NOT NULL, `a` integer NOT NULL, PRIMARY KEY (`id`, `a`)")
+	single("pk-order", "`id` integer NOT NULL, `a` integer NOT NULL, PRIMARY KEY (`id`, `a`)", "`id` integer NOT NULL, `a` integer NOT NULL, PRIMARY KEY (`a`, `id`)")
+	single("check-expression", "`id` integer NOT NULL, PRIMARY KEY (`id`), CONSTRAINT `ck` CHECK (id > 0)", "`id` integer NOT NULL, PRIMARY KEY (`id`), CONSTRAINT `ck` CHECK (id > 1)")
+	single("unnamed-check-expression", "`id` integer NOT NULL, PRIMARY KEY (`id`), CHECK (id > 0)", "`id` integer NOT NULL, PRIMARY KEY (`id`), CHECK (id > 1)")
+	single("inline-unique-added", "`id` integer NOT NULL, `a` integer NULL, PRIMARY KEY (`id`)", "`id` integer NOT NULL, `a` integer NULL, PRIMARY KEY (`id`), UNIQUE (`a`)")
+	single("inline-unique-dropped", "`id` integer NOT NULL, `a` integer NULL, PRIMARY KEY (`id`), UNIQUE (`a`)", "`id` integer NOT NULL, `a` integer NULL, PRIMARY KEY (`id`)")
+	single("strict-added", "`id` integer NOT NULL, `a` text NULL, PRIMARY KEY (`id`)", "`id` integer NOT NULL, `a` text NULL, PRIMARY KEY (`id`)) STRICT; --")
+	single("without-rowid-added", "`id` integer NOT NULL, `a` text NULL, PRIMARY KEY (`id`)", "`id` integer NOT NULL, `a` text NULL, PRIMARY KEY (`id`)) WITHOUT ROWID; --")
+	return out
 }
 
 func editKinds(es []*sqEdit) []string {
@@ -474,5 +549,22 @@ func c01CLINoDev(e *Env, c *c01Case, cdir string, add func(kind, sig, what, chk 
 	}
 	if df := catDiff(got, want); df != "" {
 		add("failing-input", "cli-hcl-apply-does-not-converge", fmt.Sprintf("after `schema apply --to file://desired.hcl` (no dev database) the live database differs from the desired one: %s\noutput:\n%s\n%s", df, trunc(o.Stdout, 400), ctxText()), "Props.C01 CLI (no dev database)")
+		return
+	}
+	// the same document as a person writes it: the primary keys carry a name (the optional block label).
+	// SQLite cannot name a primary key, so the name must not make the next plan non-empty.
+	if strings.Contains(in.Stdout, "primary_key {") {
+		n := 0
+		named := rePKBlock.ReplaceAllStringFunc(in.Stdout, func(string) string {
+			n++
+			return fmt.Sprintf("primary_key \"pk_%d\" {", n)
+		})
+		os.WriteFile(filepath.Join(cdir, "desired_named.hcl"), []byte(named), 0o644)
+		o2 := runAtlas(e, cdir, nil, "schema", "apply", "--url", "sqlite://live2.sqlite", "--to", "file://desired_named.hcl", "--auto-approve")
+		if o2.Code == 0 && !strings.Contains(o2.Stdout, "Schema is synced") {
+			add("failing-input", "cli-hcl-named-pk-replanned", fmt.Sprintf("the converged database is planned again when the primary keys of the desired HCL carry a name (SQLite cannot name them): %s\n%s", trunc(o2.Stdout, 400), ctxText()), "Props.C01 CLI (no dev database)")
+		}
 	}
 }
+
+var rePKBlock = regexp.MustCompile(`primary_key \{`)
